@@ -29,17 +29,6 @@ def lookupCol (name : String) : List (String × Nat) → Option Nat
 
 /-! ### glue / applyMask on results -/
 
-def total (ns : List Nat) : Nat := ns.foldr (· + ·) 0
-
-/-- running starts: `offsets off [n0, n1, …] = [off, off+n0, off+n0+n1, …]` (one longer than the input) -/
-def offsets (off : Nat) : List Nat → List Nat
-  | [] => [off]
-  | n :: ns => off :: offsets (off + n) ns
-
-def idxOf (X : Sub) {β} : List (Sub × β) → Option β
-  | [] => none
-  | (Y, v) :: rest => if X = Y then some v else idxOf X rest
-
 /-- length of the X block of a result's subsample table -/
 def blockLen {α} (r : Result α) (X : Sub) : Nat :=
   match idxOf X r.idx with
